@@ -270,6 +270,17 @@ def coverBL (N : Names) (L : List Tok) (days : List Nat) (c : Cert) : Bool :=
 def accAllL (rs : List (Option RE)) (pre : Str) (k : Nat) (L : List Tok) (dext : Str) (c : Cert) : Bool :=
   c.ys.all fun ay => c.ms.all fun am => c.ds.all fun ad => accOneL rs pre k L dext ay am ad
 
+/-- acceptance certificates may be evaluated in pieces (the month classes split over several files) -/
+theorem accAllL_append (rs : List (Option RE)) (pre : Str) (k : Nat) (L : List Tok) (dext : Str) (ys ds ms1 ms2 : List AStr)
+    (h1 : accAllL rs pre k L dext ⟨ys, ms1, ds⟩ = true) (h2 : accAllL rs pre k L dext ⟨ys, ms2, ds⟩ = true) :
+    accAllL rs pre k L dext ⟨ys, ms1 ++ ms2, ds⟩ = true := by
+  unfold accAllL at *
+  simp only [List.all_eq_true, List.mem_append] at *
+  intro ay hay am ham ad had
+  rcases ham with ham | ham
+  · exact h1 ay hay am ham ad had
+  · exact h2 ay hay am ham ad had
+
 theorem cover_of_coverBL (N : Names) (L : List Tok) (days : List Nat) (c : Cert) (h : coverBL N L days c = true)
     (y m d : Nat) (hy : 1900 ≤ y ∧ y ≤ 2099) (hm : 1 ≤ m ∧ m ≤ 12) (hd : d ∈ days) :
     ∃ ay, ay ∈ c.ys ∧ ∃ am, am ∈ c.ms ∧ ∃ ad, ad ∈ c.ds ∧ CoverTok N L y m d ay am ad := by
@@ -314,29 +325,41 @@ def rejAt (r : RE) (pre : Str) (onP : Bool) (M p : Nat) (A : AStr) : Bool :=
   else
     decide (A.length < p) || badAt 0 A.length p (attempt (absO latinTables A.toArray) r p)
 
-/-- certificates of a rejection: a bound on the text length, one certificate per start position of the text (`tpos`, index =
-position) and one per start position of prefix + text (`ppos`) -/
+/-- certificates of a rejection: a bound on the text length, the distinct certificates, and per start position of the text
+(`tpos`, index = position) and of prefix + text (`ppos`) the number of the certificate used there -/
 structure PosCert where
   maxLen : Nat
-  tpos : List Cert
-  ppos : List Cert
+  certs : List Cert
+  tpos : List Nat
+  ppos : List Nat
+
+def PosCert.at (pc : PosCert) (l : List Nat) (p : Nat) : Option Cert :=
+  match l[p]? with
+  | some i => pc.certs[i]?
+  | none => none
+
+theorem PosCert.at_mem {pc : PosCert} {l : List Nat} {p : Nat} {c : Cert} (h : pc.at l p = some c) : c ∈ pc.certs := by
+  unfold PosCert.at at h
+  cases hl : l[p]? with
+  | none => simp [hl] at h
+  | some i => simp only [hl] at h; exact List.mem_of_getElem? h
 
 def certAll (c : Cert) (f : AStr → AStr → AStr → Bool) : Bool :=
   c.ys.all fun ay => c.ms.all fun am => c.ds.all fun ad => f ay am ad
 
-/-- regex `j` rejects every date of the ranges in layout `L`: every position certificate covers the ranges and all its
-abstract texts are rejected at that position -/
+/-- regex `j` rejects every date of the ranges in layout `L`: every certificate covers the ranges and at every start position
+all abstract texts of the certificate used there are rejected -/
 def rejPosB (N : Names) (rs : List (Option RE)) (pre : Str) (j : Nat) (L : List Tok) (days : List Nat) (pc : PosCert) : Bool :=
-  pre.all (· < 256) &&
+  pre.all (· < 256) && pc.certs.all (coverBL N L days) &&
   match rs[j]? with
   | some (some r) =>
     (List.range (pc.maxLen + 1)).all (fun p =>
-      match pc.tpos[p]? with
-      | some c => coverBL N L days c && certAll c fun ay am ad => rejAt r pre false pc.maxLen p (absL L ay am ad)
+      match pc.at pc.tpos p with
+      | some c => certAll c fun ay am ad => rejAt r pre false pc.maxLen p (absL L ay am ad)
       | none => false) &&
     (List.range (pre.length + pc.maxLen + 1)).all (fun p =>
-      match pc.ppos[p]? with
-      | some c => coverBL N L days c && certAll c fun ay am ad => rejAt r pre true pc.maxLen p (absL L ay am ad)
+      match pc.at pc.ppos p with
+      | some c => certAll c fun ay am ad => rejAt r pre true pc.maxLen p (absL L ay am ad)
       | none => false)
   | _ => false
 
@@ -399,7 +422,8 @@ theorem rejPos_sound {T : Tables} (hT : LatinAgree T) (N : Names) (rs : List (Op
       stepO (conc T (renderL N L y m d).toArray) (conc T (pre ++ renderL N L y m d).toArray) pre.length r = some none := by
   unfold rejPosB at h
   simp only [Bool.and_eq_true] at h
-  obtain ⟨hpre, h⟩ := h
+  obtain ⟨⟨hpre, hcovs⟩, h⟩ := h
+  simp only [List.all_eq_true] at hcovs
   cases hr : rs[j]? with
   | none => simp [hr] at h
   | some o =>
@@ -419,11 +443,11 @@ theorem rejPos_sound {T : Tables} (hT : LatinAgree T) (N : Names) (rs : List (Op
   -- the text is not longer than the bound
   have hlen : (renderL N L y m d).length ≤ pc.maxLen := by
     have h0 := hTp 0 (by omega)
-    cases hc0 : pc.tpos[0]? with
+    cases hc0 : pc.at pc.tpos 0 with
     | none => simp [hc0] at h0
     | some c =>
-      simp only [hc0, Bool.and_eq_true] at h0
-      obtain ⟨A, hA, hr0⟩ := key c false 0 h0.1 h0.2
+      simp only [hc0] at h0
+      obtain ⟨A, hA, hr0⟩ := key c false 0 (hcovs c (PosCert.at_mem hc0)) h0
       unfold rejAt at hr0
       simp only [Bool.and_eq_true, decide_eq_true_eq] at hr0
       rw [← hA.length]; exact hr0.1.2
@@ -431,11 +455,11 @@ theorem rejPos_sound {T : Tables} (hT : LatinAgree T) (N : Names) (rs : List (Op
   · intro p hp
     have hp' : p ≤ (renderL N L y m d).length := by simpa [conc] using hp
     have h0 := hTp p (by omega)
-    cases hc0 : pc.tpos[p]? with
+    cases hc0 : pc.at pc.tpos p with
     | none => simp [hc0] at h0
     | some c =>
-      simp only [hc0, Bool.and_eq_true] at h0
-      obtain ⟨A, hA, hr0⟩ := key c false p h0.1 h0.2
+      simp only [hc0] at h0
+      obtain ⟨A, hA, hr0⟩ := key c false p (hcovs c (PosCert.at_mem hc0)) h0
       unfold rejAt at hr0
       simp only [Bool.and_eq_true, decide_eq_true_eq, Bool.false_eq_true, if_false, Bool.or_eq_true] at hr0
       obtain ⟨⟨hla, _⟩, hr0⟩ := hr0
@@ -447,11 +471,11 @@ theorem rejPos_sound {T : Tables} (hT : LatinAgree T) (N : Names) (rs : List (Op
   · intro p hp
     have hp' : p ≤ pre.length + (renderL N L y m d).length := by simpa [conc] using hp
     have h0 := hPp p (by omega)
-    cases hc0 : pc.ppos[p]? with
+    cases hc0 : pc.at pc.ppos p with
     | none => simp [hc0] at h0
     | some c =>
-      simp only [hc0, Bool.and_eq_true] at h0
-      obtain ⟨A, hA, hr0⟩ := key c true p h0.1 h0.2
+      simp only [hc0] at h0
+      obtain ⟨A, hA, hr0⟩ := key c true p (hcovs c (PosCert.at_mem hc0)) h0
       unfold rejAt at hr0
       simp only [Bool.and_eq_true, decide_eq_true_eq, if_true, Bool.or_eq_true] at hr0
       obtain ⟨⟨hla, _⟩, hr0⟩ := hr0
@@ -500,7 +524,7 @@ theorem front_of_facts {T : Tables} (hT : LatinAgree T) {u : Uni} (hu : TextUni 
   obtain ⟨ac, hac⟩ := hf.acc
   have hch : ∃ rc : Nat → PosCert, ∀ j, j < k → rejPosB N rs pre j L days (rc j) = true := by
     classical
-    refine ⟨fun j => if hj : j < k then (hf.rej j hj).choose else ⟨0, [], []⟩, fun j hj => ?_⟩
+    refine ⟨fun j => if hj : j < k then (hf.rej j hj).choose else ⟨0, [], [], []⟩, fun j hj => ?_⟩
     simp only [hj, dif_pos]
     exact (hf.rej j hj).choose_spec
   obtain ⟨rc, hrc⟩ := hch
